@@ -204,6 +204,15 @@ pub fn run_child(ops: &[String]) {
                 let after = all_disps(st.lib);
                 format!("{} disp={}", k, disp_diff(&before, &after))
             }
+            ["unregsig", sig] => {
+                // somebody clears the signal behind the instance's back (the deprecated registry call): the ids the
+                // instance recorded for it are stale from now on
+                let sig: i32 = sig.parse().unwrap();
+                #[allow(deprecated)]
+                let r = signal_hook_registry::unregister_signal(sig);
+                st.watch_flags.retain(|(s, _)| *s != sig);
+                format!("bool {}", r)
+            }
             ["dropinst"] => {
                 // the instance goes, a handle clone stays: the shared state (and what it registered) lives on
                 if let Some(h) = inst_handle(&st) { st.handles.push(h); }
